@@ -126,7 +126,7 @@ Definition bt_book (p : pos) (dv : option (Q * Z)) : pos :=
   end.
 (* _handle_dividend_payable: (position, cash delta, reinvestment amount (shares) to be bought at p_last) *)
 Definition reinvest_amount (value last lot : Q) : Q :=
-  qmul (zq (qtrunc (qdiv (zq (qtrunc (qdiv value last))) lot))) lot.
+  qmul (zq (qtrunc (dec_div (zq (qtrunc (dec_div value last))) lot))) lot.
 Definition bt_pay (p : pos) (today : Z) (reinvest : bool) (lot : Q) : pos * Q * Q :=
   match p_recv p with
   | None => (p, 0, 0)
